@@ -241,6 +241,9 @@ func rulePBNil(r *Run) {
 				if !ok || sel.Kind() != types.FieldVal || !isPBMessagePtr(sel.Type()) {
 					return
 				}
+				if !isPBMessagePtr(types.NewPointer(derefType(sel.Recv()))) {
+					return // a field of a server-side struct (set by the server), not an optional sub-message of a client message
+				}
 				c := r.P.Canon(holder, x)
 				if strings.HasPrefix(c, "&lit:") || strings.Contains(c, "call:timestamppb.Now") {
 					return // built by the server on this path
@@ -340,4 +343,11 @@ func scanShallow(x ast.Expr, scan func(ast.Node)) {
 		return
 	}
 	scan(x)
+}
+
+func derefType(t types.Type) types.Type {
+	if pt, ok := t.(*types.Pointer); ok {
+		return pt.Elem()
+	}
+	return t
 }
